@@ -27,3 +27,21 @@ Print Assumptions C16_point_at_agrees.
 Theorem C16_subdivide_evenly_counts_agree : forall n, (1 <= n <= 500)%Z -> seg_evenly_count n = (Z.to_nat n + 1)%nat.
 Proof. exact seg_evenly_count_spec. Qed.
 Print Assumptions C16_subdivide_evenly_counts_agree.
+
+(* the 3D quad area centroid (generated Mesh3D._quad_centroid) of a plane-embedded convex quad is the embedding of the 2D area
+   centroid - the value the 2D sibling reports - for every orthonormal frame *)
+From LBG Require Import G12_mesh C01_mesh.
+
+Theorem C16_mesh3d_quad_centroid_is_embedded_2d_centroid : forall qsqrt, Proper (Qeq ==> Qeq) qsqrt -> forall p, frame_ok p ->
+  forall p0 p1 p2 p3,
+  let s0 := tri2 p0 p1 p2 in let s1 := tri2 p2 p3 p0 in
+  0 < s0 -> 0 < s1 -> qsqrt (s0 * s0) == Qabs s0 -> qsqrt (s1 * s1) == Qabs s1 ->
+  Mesh3D__quad_centroid qsqrt [Plane_xy_to_xyz p p0; Plane_xy_to_xyz p p1; Plane_xy_to_xyz p p2; Plane_xy_to_xyz p p3]
+  =3= Plane_xy_to_xyz p (quad_centroid2 p0 p1 p2 p3).
+Proof. exact mesh3d_quad_centroid_embedded. Qed.
+Print Assumptions C16_mesh3d_quad_centroid_is_embedded_2d_centroid.
+
+Example C16_quad_nonvacuous :
+  let p0 := mkV2 0 0 in let p1 := mkV2 4 0 in let p2 := mkV2 3 2 in let p3 := mkV2 1 2 in
+  0 < tri2 p0 p1 p2 /\ 0 < tri2 p2 p3 p0 /\ quad_centroid2 p0 p1 p2 p3 =2= mkV2 2 (8 # 9).
+Proof. vm_compute. repeat split; reflexivity. Qed.
